@@ -1,4 +1,4 @@
-import Bardolph.Proofs.ParseTokLex
+import Bardolph.Proofs.ParseTokNum
 /-!
 # C06 (and C16/C17) on the token-level parser model `ParseTok`
 
@@ -9,11 +9,11 @@ line AND text of every message, the complete instruction list).  The theorems be
 model.
 
 * `C06_parse_terminates` — the fuel is never exhausted: the recursive descent terminates.
-* `C06_parse_outcomes` — the outcome is `accept`, or `reject` with at least one message, or the
-  `ValueError` of `int()` on a NUMBER token the model's `int`/`float` cannot convert (more than
-  4300 digits: a defect of the real compiler, see `C06_int_literal_raises`).  Never a silent
-  failure, never an accepted text with messages, never any other exception.
-* `C06_no_silent_no_raise_partial` — the same with that case excluded by hypothesis.
+* `C06_parse_outcomes`, `C06_parse_outcomes_digits` — the outcome is `accept`, or `reject` with at
+  least one message, or the `ValueError` of `int()` on an integer literal of more than 4300 digits
+  (a defect of the real compiler, see `C06_int_literal_raises`).  Never a silent failure, never an
+  accepted text with messages, never any other exception.
+* `C06_no_silent_no_raise_partial` — the same with exactly that case excluded by hypothesis.
 * `C06_reject_has_line` — every message carries the number of a line of the text, or 0 (the
   end-of-file token `Token(TokenTypes.EOF)` has line number 0, so "Line 0: …" is what the real
   parser prints when the text ends too early).
@@ -59,16 +59,34 @@ theorem C06_parse_outcomes (text : String) :
 theorem C06_parse_terminates (text : String) : parse text ≠ .outOfFuel := by
   rcases C06_parse_outcomes text with ⟨p, h⟩ | ⟨m, h, _⟩ | ⟨h, _⟩ <;> (rw [h]; intro h'; cases h')
 
+/-- … where such a token is an integer literal of more than 4300 digits (`number_token_shape`: the
+text of a NUMBER token is matched entirely by `[0-9]*\.?[0-9]+`; `parseNumber_shape`: Python
+converts every such text except an over-long integer) -/
+theorem C06_parse_outcomes_digits (text : String) :
+    (∃ prog, parse text = .accept prog) ∨
+    (∃ msgs, parse text = .reject msgs ∧ msgs ≠ []) ∨
+    (parse text = .raised "ValueError" ∧
+      ∃ t ∈ Lex.tokens text, t.type = "NUMBER" ∧ t.content.toList.all isAsciiDigit = true ∧
+        t.content.length > 4300) := by
+  rcases C06_parse_outcomes text with h | h | ⟨h1, t, ht, hty, hb⟩
+  · exact .inl h
+  · exact .inr (.inl h)
+  · have := parseNumber_shape (number_token_shape ht hty) hb
+    exact .inr (.inr ⟨h1, t, ht, hty, this.1, by
+      have h2 := this.2
+      rw [String.length_toList] at h2
+      exact h2⟩)
+
 /-- Full statement (false for the real compiler and for the model, see `C06_int_literal_raises`):
 `∀ text, (∃ prog, parse text = .accept prog) ∨ ∃ msgs, parse text = .reject msgs ∧ msgs ≠ []`.
-Proved with the one exception excluded: no NUMBER token that `int()` / `float()` reject. -/
+Proved with exactly the one exception excluded: no integer literal of more than 4300 digits. -/
 theorem C06_no_silent_no_raise_partial (text : String)
-    (hnum : ∀ t ∈ Lex.tokens text, t.type = "NUMBER" → cvalOfNum (parseNumber t.content) ≠ none) :
+    (hnum : ∀ t ∈ Lex.tokens text, t.type = "NUMBER" → t.content.length ≤ 4300) :
     (∃ prog, parse text = .accept prog) ∨ ∃ msgs, parse text = .reject msgs ∧ msgs ≠ [] := by
-  rcases C06_parse_outcomes text with h | h | ⟨_, t, ht, hty, hb⟩
+  rcases C06_parse_outcomes_digits text with h | h | ⟨_, t, ht, hty, _, hl⟩
   · exact .inl h
   · exact .inr h
-  · exact absurd hb (hnum t ht hty)
+  · have := hnum t ht hty; omega
 
 /-- every message of a rejection carries the number of a line of the text, or 0 (end of file) -/
 theorem C06_reject_has_line (text : String) (msgs : List (Nat × String))
